@@ -21,7 +21,7 @@ def main():
         env = Q.Env(P, spec.get("tier", "quick"))
         from mirsym import queries_sig as QS
         fn = getattr(Q, "q_" + spec["q"], None) or getattr(QS, "q_" + spec["q"], None)
-        if fn is None and spec["q"] in ("opcode", "step_error"):
+        if fn is None and spec["q"] in ("opcode", "step_error", "if_branch", "step_vs_run"):
             from mirsym import queries_interp as QI
             fn = getattr(QI, "q_" + spec["q"])
         if fn is None and spec["q"] in ("hash_layer",):
